@@ -204,18 +204,6 @@ func parseHTMLTagName(r *inlineByteReader) bool {
 	return true
 }
 
-func htmlTagNameEnd(b []byte) int {
-	if len(b) == 0 || !isASCIILetter(b[0]) {
-		return 0
-	}
-	for i := 1; i < len(b); i++ {
-		if !isASCIILetter(b[i]) && !isASCIIDigit(b[i]) && b[i] != '-' {
-			return i
-		}
-	}
-	return len(b)
-}
-
 func parseHTMLAttribute(r *inlineByteReader) bool {
 	// Attribute name.
 	if c := r.current(); !isASCIILetter(c) && c != '_' && c != ':' {
